@@ -629,12 +629,11 @@ def real_coarsegrain(c):
 def run(ctx):
     rng = ctx.rng
     from strengths.coarsegrain import check_index_map_validity, grid_to_graph
-    ctx.notes.append("proved for all inputs: generated subscripts / tests / statement inventory, valid_iff_partial (five of the six rules; the "
-                     "environment rule stays in the form 'the code's environment loop returns normally'), cg_volume, cg_volume_SI, "
-                     "cg_no_loops_no_dups, periodic_grid_raises.  NOT proved for all inputs (kept as full statements in Props/C16.lean, "
-                     "kernel-evaluated on concrete instances, and decided on every generated case by the oracle on the real code + the "
-                     "correspondence of the model): cg_species_total, cg_env, cg_chem_any, cg_edge_iff, cg_surface, cg_distance, "
-                     "uncg_group_total, uncg_dropped_zero, uncg_even, identity_map")
+    ctx.notes.append("proved for all inputs: valid_iff (environments != -2), cg_volume(_SI), cg_group_amount, cg_species_total, cg_env, "
+                     "cg_chem_any (flags >= 0), cg_edge_iff, cg_surface, cg_distance + cg_centroid, cg_no_loops_no_dups, fine edges = shared "
+                     "faces, uncg_even / uncg_dropped_zero / uncg_group_total, generated subscripts / tests / statement inventory.  NOT proved "
+                     "for all inputs: identity_map (coarsegrain id = gridToGraph as ordered edge lists) - kernel-evaluated on a concrete "
+                     "instance, and decided on every generated identity case by the correspondence + oracle and on the real engines")
     n_valid = ctx.n(170, 8000)
     n_invalid = ctx.n(60, 2500)
     cases = [gen_case(rng) for _ in range(n_valid)] + [gen_case(rng, invalid=True) for _ in range(n_invalid)] + \
